@@ -101,3 +101,19 @@ func H_C15_SegwitDecEnc() {
 	h_c15_decenc(L)
 }
 
+
+// C15: witness version 0 admits only 20- and 32-byte programs, at the string lengths where that matters: every
+// string "bc1q" + 38 / 40 / 42 further characters (programs of 20, 21 and 22 bytes once the checksum holds): accepted
+// only with a 20-byte program. (The re-encoding identity at these lengths belongs to the thorough tier.)
+func H_C15_SegwitV0Length() {
+	lens := []int{42, 44, 46}
+	L := lens[zzverif.Enum("Lidx", len(lens))]
+	s := "bc1q" + string(zzverif.Bytes("s", L-4))
+	ver, prog, er := SegwitDecode("bc", s)
+	if er != nil {
+		zzverif.Reach("refused")
+		return
+	}
+	zzverif.Reach("accepted")
+	zzverif.Assert("C15.segwit.rules", ver == 0 && (len(prog) == 20 || len(prog) == 32))
+}
